@@ -122,6 +122,11 @@ pub fn fixed_conforming() -> Vec<(&'static str, &'static str)> {
         ("abort-path-calls-a-routine", ".data\nmsg: .string \"negative\\n\"\n.text\nmain:\n    li a7, 5\n    ecall\n    jal ra, f\n    li a7, 1\n    ecall\n    li a7, 10\n    ecall\nf:\n    bltz a0, bad\n    addi a0, a0, 1\n    ret\nbad:\n    la a0, msg\n    jal ra, print\n    li a0, 1\n    li a7, 93\n    ecall\nprint:\n    li a7, 4\n    ecall\n    ret\n"),
         ("abort-path-uses-a-saved-register", "main:\n    li a7, 5\n    ecall\n    jal ra, f\n    li a7, 1\n    ecall\n    li a7, 10\n    ecall\nf:\n    bltz a0, bad\n    addi a0, a0, 1\n    ret\nbad:\n    mv s0, a0\n    li a0, 33\n    li a7, 11\n    ecall\n    mv a0, s0\n    li a7, 93\n    ecall\n"),
         ("routine-label-data-code", "main:\n    jal ra, greet\n    li a7, 10\n    ecall\ngreet:\n.data\nmsg: .string \"hi\\n\"\n.text\n    la a0, msg\n    li a7, 4\n    ecall\n    ret\n"),
+        // interrupt handlers: a handler preserves every register it touches, temporaries included
+        ("handler-saves-temporaries-on-the-stack", ".data\ncnt: .word 0\n.text\nmain:\n    la t0, handler\n    csrrw zero, utvec, t0\n    csrrsi zero, ustatus, 1\n    li s1, 0\nspin:\n    addi s1, s1, 1\n    li t3, 100000\n    blt s1, t3, spin\n    li a7, 10\n    ecall\nhandler:\n    addi sp, sp, -12\n    sw t1, 0(sp)\n    sw t2, 4(sp)\n    sw s0, 8(sp)\n    csrr t1, ucause\n    li t2, 1\n    sll s0, t2, t1\n    la t2, cnt\n    sw s0, 0(t2)\n    lw s0, 8(sp)\n    lw t2, 4(sp)\n    lw t1, 0(sp)\n    addi sp, sp, 12\n    uret\n"),
+        ("handler-with-a-save-area-behind-uscratch", ".data\nsave: .space 32\n.text\nmain:\n    la t0, handler\n    csrrw zero, utvec, t0\n    la t1, save\n    csrrw zero, uscratch, t1\n    csrrsi zero, ustatus, 1\n    li s1, 0\nwait:\n    addi s1, s1, 1\n    li t3, 1000\n    blt s1, t3, wait\n    li a7, 10\n    ecall\nhandler:\n    csrrw t0, uscratch, t0\n    sw s0, 0(t0)\n    csrr s0, ucause\n    slli s0, s0, 1\n    sw s0, 4(t0)\n    lw s0, 0(t0)\n    csrrw t0, uscratch, t0\n    uret\n"),
+        // floating-point data (the values do not matter to the analysis)
+        ("float-data", ".data\nf: .float 3.14\nd: .double 0.5, 2.25\n.text\nmain:\n    li a7, 10\n    ecall\n"),
         ("branch-target-data-code", "main:\n    li a7, 5\n    ecall\n    beqz a0, done\n    li a7, 1\n    ecall\ndone:\n.data\nbye: .string \"bye\\n\"\n.text\n    la a0, bye\n    li a7, 4\n    ecall\n    li a7, 10\n    ecall\n"),
     ]
 }
